@@ -118,6 +118,11 @@ structure Out where
   /-- flag, not behaviour: `batch_size` exceeded the active set the batch was drawn from (the
   property demands `min(batch, |active|)` samples; the code raises in `optimize_acqf_discrete`) -/
   batchExceeds : Bool
+  /-- the number of evaluations this call is expected to request: `|active|` for PaVeBa / Auer /
+  NaiveElimination, `min(batch, |active|)` (decoupled: `min(batch, m·|active|)`) for the batched
+  algorithms, `0` when nothing is evaluated; `req.length ≤ cap`, with equality as soon as the
+  environment offers enough valid picks -/
+  cap : Nat := 0
   deriving DecidableEq, Repr
 
 /-! ## accounting -/
@@ -177,6 +182,7 @@ structure Act where
   req : List Req
   refined : Option Nat := none
   exceeds : Bool := false
+  cap : Nat := 0
 
 /-- bookkeeping shared by all families: `round += 1`, `sample_count += len(requested)`,
 `total_cost += Σ costs[objective]` -/
@@ -200,7 +206,11 @@ def pavebaActive (c : Cfg) (s : State) (e : Env) : Act :=
     req := req
     exceeds := match c.alg with
       | .paveba => false
-      | _ => exceeds c A }
+      | _ => exceeds c A
+    cap := match c.alg with
+      | .paveba => A.length
+      | .pavebaGP => min c.batch A.length
+      | _ => min c.batch (c.m * A.length) }
 
 /-- Auer: evaluating over `S`, then discarding and Pareto updating with `beta_t` looked up by
 design -/
@@ -208,7 +218,8 @@ def auerActive (c : Cfg) (s : State) (e : Env) : Act :=
   let req := allOf s.S
   let r := auerRound c.eps e.centre e.width s.S s.P
   { st := account c { s with S := r.1, P := r.2 } req
-    req := req }
+    req := req
+    cap := s.S.length }
 
 /-- VOGP / ε-PAL: discarding, ε-covering, then evaluating over `W = S ∪ P` only if `S ≠ ∅` -/
 def vogpActive (c : Cfg) (s : State) (e : Env) : Act :=
@@ -217,7 +228,8 @@ def vogpActive (c : Cfg) (s : State) (e : Env) : Act :=
   let req := if r.1.isEmpty then [] else cappedC c W e.picks
   { st := account c { s with S := r.1, P := r.2 } req
     req := req
-    exceeds := !r.1.isEmpty && exceeds c W }
+    exceeds := !r.1.isEmpty && exceeds c W
+    cap := if r.1.isEmpty then 0 else min c.batch W.length }
 
 /-- depth of a node (`point_depths[i]`) -/
 def depthOf (s : State) (i : Nat) : Nat := s.depths.getD i 0
@@ -256,7 +268,7 @@ def grow (c : Cfg) (s : State) (d : Nat) : State :=
 /-- carry out the choice: children replace a refined node *in its own set* -/
 def applyChoice (c : Cfg) (s : State) : Choice → Act
   | .idle => { st := account c s [], req := [] }
-  | .sample d => { st := account c s [(d, none)], req := [(d, none)] }
+  | .sample d => { st := account c s [(d, none)], req := [(d, none)], cap := 1 }
   | .refineS d =>
     { st := account c { grow c s d with S := s.S.erase d ++ childIds c s.depths.length } []
       req := [], refined := some d }
@@ -276,7 +288,7 @@ def adActive (c : Cfg) (s : State) (e : Env) : Act :=
 /-- NaiveElimination: all `K` designs are sampled -/
 def naiveActive (c : Cfg) (s : State) : Act :=
   let req := allOf (List.range c.K)
-  { st := account c s req, req := req }
+  { st := account c s req, req := req, cap := c.K }
 
 /-- DecoupledGP: a batch of (design, objective) pairs over all designs; `P` is recomputed -/
 def decoupledActive (c : Cfg) (s : State) (e : Env) : Act :=
@@ -284,7 +296,8 @@ def decoupledActive (c : Cfg) (s : State) (e : Env) : Act :=
   let req := cappedD c all e.picks
   { st := account c { s with P := e.pareto } req
     req := req
-    exceeds := exceeds c all }
+    exceeds := exceeds c all
+    cap := min c.batch (c.m * all.length) }
 
 /-- the part of `run_one_step()` after the early return -/
 def active (c : Cfg) (s : State) (e : Env) : Act :=
@@ -304,7 +317,8 @@ def step (c : Cfg) (s : State) (e : Env) : State × Out :=
   if isDone c s then (s, { done := true, req := [], refined := none, batchExceeds := false })
   else
     let a := active c s e
-    (a.st, { done := isDone c a.st, req := a.req, refined := a.refined, batchExceeds := a.exceeds })
+    (a.st, { done := isDone c a.st, req := a.req, refined := a.refined, batchExceeds := a.exceeds,
+             cap := a.cap })
 
 /-- the state right after the constructor -/
 def init (c : Cfg) : State :=
